@@ -24,7 +24,7 @@ type c02Case struct {
 	ReadLim int              `json:"read_limit"` // -1 = read everything, k = stop after k octets
 	Reads   []int            `json:"reads,omitempty"`
 	Result  harness.Decision `json:"result"`
-	// StallAt > 0: the server has a 30 ms ReadTimeout; the client sends the
+	// StallAt > 0: the server has a 100 ms ReadTimeout; the client sends the
 	// first StallAt octets of the stream, stays silent until the server has
 	// reacted to the timeout (state-based wait), then sends the rest. Whatever
 	// the server does then, the rest of the message must not be executed.
@@ -147,7 +147,7 @@ func c02Gen(t *rapid.T) c02Case {
 	}
 	stream, moff := c02Stream(c)
 	c.Cuts = genCuts(t, len(stream), interestingPositions(stream, ".\r\n"), "cuts")
-	if moff > 2 && rapid.IntRange(0, 999).Draw(t, "stall")%25 == 7 {
+	if moff > 2 && rapid.IntRange(0, 999).Draw(t, "stall")%100 == 7 {
 		c.StallAt = rapid.IntRange(1, moff-1).Draw(t, "stall_at")
 		c.Limit = 0
 	}
@@ -164,7 +164,7 @@ func c02Run(c c02Case) Verdict {
 	cfg := harness.Config{LMTP: lmtp, MaxMessageBytes: c.Limit}
 	stall := c.StallAt > 0 && c.StallAt < markerOff
 	if stall {
-		cfg.ReadTimeoutMs = 30
+		cfg.ReadTimeoutMs = 100
 	} else if c.TLS {
 		cfg.TLS = "implicit"
 	}
